@@ -1046,7 +1046,17 @@ def _rule_config(check, repo: Repo) -> None:
         for c in calls_in(fake):
             cn = call_name(c) or ""
             if cn in ("self._recursive_save", "write_skip_metadata"):
-                calls.append(cn + "(" + ", ".join(unparse(a) for a in c.args) + ")")
+                # arguments bound to parameter names (positional and keyword spellings of the same call are the same call)
+                pnames = []
+                if cn == "self._recursive_save":
+                    pnames = [a.arg for a in repo.func(f"{SER}:AutoSerialize._recursive_save")[1].args.args if a.arg not in ("self", "cls")]
+                bound = {}
+                for i_, a in enumerate(c.args):
+                    bound[pnames[i_] if i_ < len(pnames) else f"#{i_}"] = unparse(a)
+                for k in c.keywords:
+                    if k.arg:
+                        bound[k.arg] = unparse(k.value)
+                calls.append(cn + "(" + ", ".join(f"{k}={v}" for k, v in sorted(bound.items())) + ")")
         sigs[label] = calls
     ok = len(sigs) == 2 and sigs.get("zip") == sigs.get("dir") and len(sigs.get("zip", [])) == 2
     check.decide(ok, "C01-R9", "save: zip and dir arms make the same serialisation calls",
